@@ -435,11 +435,32 @@ fn reject_case(c: &mut Case, kind: Rej, n: usize, uk: &UKind, scls: SCls) {
                 None
             };
             if let Some(bv) = bad_v {
-                let mut feedv: Vec<usize> = xs[..p].to_vec();
+                // the accepted prefix reaches the builder through an earlier history
+                // (nothing, pushes, or a previous extend call) of q <= p values: the
+                // bound and order checks of extend must continue from that state
+                let q = match c.rng().random_range(0..5u32) {
+                    0 | 1 => 0,
+                    2 | 3 => p,
+                    _ => c.rng().random_range(0..=p),
+                };
+                let via_push = c.rng().random_bool(0.5);
+                if q > 0 {
+                    let ok = if via_push {
+                        guarded(c, "push", &format!("{} admissible pushes before the extend", q), &d, || xs[..q].iter().for_each(|&x| efb.push(x))).is_some()
+                    } else {
+                        guarded(c, "extend", &format!("extend of the {} first (admissible) values", q), &d, || efb.extend(xs[..q].iter().copied())).is_some()
+                    };
+                    if !ok {
+                        return;
+                    }
+                }
+                let mut feedv: Vec<usize> = xs[q..p].to_vec();
                 feedv.push(bv);
                 feedv.extend_from_slice(&xs[p..]);
                 let r = catch(|| efb.extend(feedv.iter().copied()));
-                c.check("extend_reject", r.is_err(), || format!("extend(..) accepted the bad value {} at position {}; {}", bv, p, d()));
+                c.check("extend_reject", r.is_err(), || {
+                    format!("extend(..) accepted the bad value {} at position {} (the builder held {} values from earlier {}, the call offered {} admissible values before the bad one); {}", bv, p, q, if via_push { "pushes" } else { "extend calls" }, p - q, d())
+                });
                 if r.is_ok() {
                     return;
                 }
